@@ -5,6 +5,7 @@ From Coq Require Import List NArith ZArith Bool Arith.
 From RecordUpdate Require Import RecordUpdate.
 From JV Require Import Bytes Msg SrvModel SrvLemmas SrvC09 SrvC10 SrvC09b SrvC09c.
 From JV Require SrvNoCrash.
+From JV Require Import SrvC08m SrvEventually.
 Import ListNotations.
 
 (* 1. the push gate: without AllowPush nothing is transmitted and nothing changes; after the
@@ -213,3 +214,59 @@ Theorem c09_returns_step : forall c n s l s' os, reach c s -> NoDup (map op_num 
   countb (ret_n n) os + pend n s' = pend n s + call_label_n n l.
 Proof. exact (fun c n s l s' os R => step_pend n s l s' os (inv_push_reach c s R)). Qed.
 Print Assumptions c09_returns_step.
+
+(* 7. a Callback eventually returns (srv/SrvEventually.v; [eventually] = in the last state of every maximal release-only
+      run, spelled out in props/C01.v: c01_eventually_spec).  live c: the Callback of record c has not returned (its slot
+      is empty and its request was sent).  has_reply k f: the record f contains a reply member bearing the id k;
+      reply_pending s k: such a record has been fed (it is in the transport or held by the reader).
+      From ANY reachable state s, with no further action of the environment, in the last state s' of every maximal
+      release-only run, for every callback record i of s: the record is still there with its operation number and id;
+      if its Callback is still outstanding, then it was outstanding in s, it is registered, the server is running, its
+      context is alive, the reader is idle with an empty transport, and none of the triggers held in s;
+      if it was outstanding in s and the server was stopped, or its context had ended (cancel or deadline), or a reply
+      with its id had been fed, then the Callback HAS RETURNED during the run: it is no longer outstanding nor
+      registered, and its return (a result, an error or a context error) is among the observations of the run. *)
+Theorem c09_live_spec : forall c, live c = true <-> cb_slot c = None /\ cb_ret c = false.
+Proof. exact live_spec. Qed.
+Print Assumptions c09_live_spec.
+
+Theorem c09_reply_pending_spec : forall s k, reply_pending s k <->
+  (exists f, rd s = RHold f /\ has_reply k f) \/ (exists f, In f (ch_in s) /\ has_reply k f).
+Proof. exact (fun s k => conj (fun x => x) (fun x => x)). Qed.
+Print Assumptions c09_reply_pending_spec.
+
+Theorem c09_has_reply_spec : forall k f, has_reply k f <->
+  exists ms m, msgs_feed f ms /\ In m ms /\ is_req_or_notif m = false /\ fix_id (j_id m) = k.
+Proof. exact (fun k f => conj (fun x => x) (fun x => x)). Qed.
+Print Assumptions c09_has_reply_spec.
+
+Theorem c09_cb_triggered_spec : forall s c0, cb_triggered s c0 <->
+  running s = false \/ cb_cancelled c0 = true \/ cb_ctx c0 <> None \/ reply_pending s (cb_id c0).
+Proof. exact (fun s c0 => conj (fun x => x) (fun x => x)). Qed.
+Print Assumptions c09_cb_triggered_spec.
+
+Theorem c09_returned_spec : forall s tr s' oss, c09_returned s tr s' oss <->
+  forall i c0, nth_error (cbs s) i = Some c0 ->
+    exists c', nth_error (cbs s') i = Some c' /\ cb_op c' = cb_op c0 /\ cb_id c' = cb_id c0 /\
+      (live c' = true -> live c0 = true /\ In (cb_id c0, i) (calls s') /\ running s' = true /\ cb_ctx c' = None /\
+         cb_cancelled c' = false /\ rd s' = RIdle /\ ch_in s' = [] /\ ~ cb_triggered s c0) /\
+      (live c0 = true -> cb_triggered s c0 ->
+         live c' = false /\ ~ In (cb_id c0, i) (calls s') /\
+         exists r, In (ORet (cb_op c0) r) (concat oss) /\ is_completion r = true).
+Proof. exact (fun s tr s' oss => conj (fun x => x) (fun x => x)). Qed.
+Print Assumptions c09_returned_spec.
+
+Theorem c09_callback_eventually_returns : forall c s, reach c s -> eventually s (c09_returned s).
+Proof. exact SrvEventually.c09_callback_eventually_returns. Qed.
+Print Assumptions c09_callback_eventually_returns.
+
+(* how a callback record evolves along ANY run (environment labels included): it keeps its place, operation number and
+   id, a cancelled context stays cancelled, a returned Callback stays returned, and if it was outstanding it still is or
+   its return is among the observations *)
+Theorem c09_callback_record_run : forall tr s s' oss i c0, run s tr = Some (s', oss) -> nth_error (cbs s) i = Some c0 ->
+  exists c', nth_error (cbs s') i = Some c' /\
+    (cb_op c' = cb_op c0 /\ cb_id c' = cb_id c0 /\ (cb_cancelled c0 = true -> cb_cancelled c' = true) /\
+     (live c' = true -> live c0 = true)) /\
+    (live c0 = true -> live c' = true \/ exists r, In (ORet (cb_op c0) r) (concat oss) /\ is_completion r = true).
+Proof. exact run_cb_next. Qed.
+Print Assumptions c09_callback_record_run.
